@@ -319,7 +319,6 @@ func (h H) candidateGates(rule string) {
 	}
 }
 
-
 // resetTimerOnlyOnGrant (C17.2): replyRPC reports resetTimer for a vote request only when result == success.
 func (h H) resetTimerOnlyOnGrant(rule string) {
 	fn := h.fn("raft:(*Raft).replyRPC")
@@ -355,7 +354,9 @@ func (h H) resetTimerOnlyOnGrant(rule string) {
 	rt := h.fn("raft:(*follower).resetTimer")
 	for k, c := range h.P.CallsTo(sl, rt) {
 		fi := h.P.Info(sl)
-		r1 := fi.MustCross(c, func(a core.Atom) bool { return a.Op == "true" && a.L == "(*Raft).replyRPC(Raft, select@"+selName(a.L)+")" })
+		r1 := fi.MustCross(c, func(a core.Atom) bool {
+			return a.Op == "true" && a.L == "(*Raft).replyRPC(Raft, select@"+selName(a.L)+")"
+		})
 		_ = r1
 		ok := false
 		res := fi.MustCross(c, func(a core.Atom) bool {
